@@ -64,6 +64,8 @@ package ecmascript
 //@   recovered
 //@   requires exe != nil && *exe != nil && (*exe).Events != nil
 //@   modifies (*exe).Events, (*exe).Events.Emitted
+//@   ensures[C09] canonical: len((*exe).Events.Emitted) == old(len((*exe).Events.Emitted)) + 1 && (*exe).Events.Emitted[len((*exe).Events.Emitted)-1] == lastret(core.Canonicalize, y)
+//@   ensures[C09] onecopy: ncalls(core.Canonicalize) == old(ncalls(core.Canonicalize)) + 1
 
 // The watcher goroutine of Exec: touches only the runtime.
 //@ func (*Interpreter).Exec$8
@@ -80,6 +82,7 @@ package ecmascript
 //@   argfrom[C10,C12] RunProgram#0 goja.New
 //@   across RunProgram: exe != nil && exe.Events != nil && exe.Events.Traces != nil && fresh(exe) && fresh(exe.Events)
 //@   onwrite[C10] env: ref(value) == nil || ref(value) >= mark || isfunc(value) || key == "ctx"
+//@   onwrite[C09] env: key == "bindings" ==> ref(value) == ref(lastret(core.Canonicalize, y))
 //@   ensures[C07] total: exe != nil || err != nil
 //@   ensures[C07] wf: exe != nil ==> exe.Events != nil && exe.Events.Traces != nil && fresh(exe) && fresh(exe.Events)
 //@   ensures[C08] atomic: err != nil ==> exe == nil || len(exe.Emitted) == 0
